@@ -308,10 +308,12 @@ def check_C18(ctx):
     g = ctx.bin(GRID)
     jobs = []
     for mode in ("zstd", "uncompressed"):
-        jobs.append(Job(g, "TestC18", name="C18:write/" + mode, timeout=1200, env={"VERIF_PARAM_MODE": mode, "GOMAXPROCS": "4"}))
-        jobs.append(Job(g, "TestC18Proxy", name="C18:proxy/" + mode, timeout=1200, env={"VERIF_PARAM_MODE": mode, "GOMAXPROCS": "4"}))
+        shards = 6 if ctx.thorough() else 1
+        for sh in range(shards):
+            jobs.append(Job(g, "TestC18", name="C18:write/%s#%d" % (mode, sh), timeout=3600, env={"VERIF_PARAM_MODE": mode, "GOMAXPROCS": "4", "VERIF_SHARD": "%d/%d" % (sh, shards)}))
+        jobs.append(Job(g, "TestC18Proxy", name="C18:proxy/" + mode, timeout=3600, env={"VERIF_PARAM_MODE": mode, "GOMAXPROCS": "4"}))
     return dict(level="exploration", jobs=jobs,
-                rule="max_blob_size L in {1, 4 KiB, 1 MiB} x item size {L-1, L, L+1, 4L} x 13 write paths x {incompressible, highly compressible} content (so that the transport size differs from the logical size) x storage mode; max_proxy_blob_size P in {100, 4096} x backend object {P-1, P, P+1} x {Get size known/unknown, GetZstd, Contains known/unknown, FindMissingBlobs, AC dependency check}; GetCapabilities; non-trivial = distinct cells on both sides of each limit",
+                rule="max_blob_size L in {1, 4 KiB, 1 MiB} (thorough: 11 limits incl. 2, 100, 4 KiB+-1, 64 KiB, 1 MiB+-1, 2 MiB+1) x item size {L-1, L, L+1, 4L} (thorough: 1, L/2, L-1, L, L+1, L+2, 2L, 4L+1) x 13 write paths x {incompressible, highly compressible} content (so that the transport size differs from the logical size) x storage mode; max_proxy_blob_size P in {100, 4096} x backend object {P-1, P, P+1} x {Get size known/unknown, GetZstd, Contains known/unknown, FindMissingBlobs, AC dependency check}; GetCapabilities; non-trivial = distinct cells on both sides of each limit",
                 assumptions=["in-process servers; the disk cache and both front ends are configured with the same limit, as main() does"])
 
 
